@@ -188,11 +188,10 @@ func (wb *memWriteBatch) DeleteRange(start, end []byte) {
 		if wb.writer == nil {
 			wb.writer = wb.db.radixMemI.memkv.Txn(true)
 		}
-		it, err := wb.db.radixMemI.NewIterator()
-		if err != nil {
-			wb.hasErr = err
-			return
-		}
+		// the operations of a batch take effect in order: the range is enumerated as the batch's own
+		// transaction sees it (keys put earlier in this batch included), not as last committed
+		it := &radixIterator{miTxn: wb.writer.Snapshot()}
+		var err error
 		it.Seek(start)
 		for ; it.Valid(); it.Next() {
 			k := it.Key()
@@ -266,6 +265,16 @@ func (wb *memWriteBatch) Put(key []byte, value []byte) {
 	})
 }
 
+// readPending returns the value of key as the open radix transaction of this batch sees it.
+func (wb *memWriteBatch) readPending(key []byte) ([]byte, error) {
+	_, v, err := wb.writer.First(key)
+	if err != nil || v == nil {
+		return nil, err
+	}
+	_, dbv, err := memdb.KVFromObject(v)
+	return dbv, err
+}
+
 func (wb *memWriteBatch) Merge(key []byte, value []byte) {
 	if useMemType == memTypeRadix {
 		if wb.writer == nil {
@@ -277,7 +286,8 @@ func (wb *memWriteBatch) Merge(key []byte, value []byte) {
 		}
 		var err error
 		if oldV == nil {
-			oldV, err = wb.db.GetBytesNoLock(key)
+			// read through the batch's own transaction: a key deleted earlier in this batch counts from zero
+			oldV, err = wb.readPending(key)
 		}
 		cur, err := GetRocksdbUint64(oldV, err)
 		if err != nil {
